@@ -1,4 +1,5 @@
 import PyGam.Proofs.Intervals
+import PyGam.Gen.Decisions
 /-!
 # C09 — confidence and prediction intervals are the stated quantiles on the link scale
 
@@ -346,5 +347,40 @@ example : quantilesRejected ([1/2, 0] : List Rat) = true ∧ quantilesRejected (
     quantilesRejected (quantilesOfWidth (3/2 : Rat)) = true ∧
     quantilesRejected (quantilesOfWidth (-1/10 : Rat)) = false := by
   decide +kernel
+
+/-! ## Second tie: the per-level range check, translated from the current source
+
+`Gen/Decisions.lean` is regenerated on every run from the abstract syntax tree of `pygam/pygam.py`:
+`Gen.quantile_level_check` is the body of the first `for quantile in quantiles:` loop of `GAM._get_quantiles`
+(`if not (0 < quantile < 1): raise ValueError`; the chained comparison is written `0 < q ∧ q < 1`). -/
+section gen_decisions
+variable {α : Type} [Field α] [LinearOrder α] [IsStrictOrderedRing α] [HasLogSqrt α]
+
+/-- the check the source applies to every requested level IS the model's `badQuantile`: a level is rejected with a
+`ValueError` exactly when the model rejects it, and an accepted level is handed on unchanged -/
+theorem gen_decision_quantile_level_check (q : α) :
+    Gen.quantile_level_check q = if badQuantile q then .error "ValueError" else .ok q := by
+  unfold Gen.quantile_level_check badQuantile
+  by_cases h0 : (0:α) < q <;> by_cases h1 : q < 1 <;> simp [h0, h1]
+
+/-- hence the whole call is rejected (model: `quantilesRejected`) exactly when the list of levels is empty or the
+translated source check raises on one of them -/
+theorem gen_decision_quantiles_rejected (qs : List α) :
+    quantilesRejected qs = true ↔ (qs = [] ∨ ∃ q ∈ qs, Gen.quantile_level_check q = .error "ValueError") := by
+  have hq : ∀ q : α, Gen.quantile_level_check q = .error "ValueError" ↔ badQuantile q = true := by
+    intro q
+    rw [gen_decision_quantile_level_check]
+    by_cases h : badQuantile q = true <;> simp [h]
+  simp only [quantilesRejected, Bool.or_eq_true, List.any_eq_true, List.isEmpty_iff, hq]
+  exact Or.comm
+
+/-- non-vacuity on exact rationals: the translated check accepts `1/40`, rejects `0`, `1`, `3/2` -/
+example [HasLogSqrt Rat] : Gen.quantile_level_check (1/40 : Rat) = .ok (1/40) ∧
+    Gen.quantile_level_check (0 : Rat) = .error "ValueError" ∧
+    Gen.quantile_level_check (1 : Rat) = .error "ValueError" ∧
+    Gen.quantile_level_check (3/2 : Rat) = .error "ValueError" := by
+  refine ⟨?_, ?_, ?_, ?_⟩ <;> rw [gen_decision_quantile_level_check] <;> decide +kernel
+
+end gen_decisions
 
 end PyGam.C09
